@@ -192,7 +192,7 @@ PROPS = {
                 "oracle upload: server answers == {next, send, resume:<partial size>} per item (computed from the disk state when the upload starts), "
                 "after a cut no file is under its final name with other bytes than the client's and partial data is a prefix, resulting tree == streamed tree, and downloading "
                 "the uploaded folder returns the same tree; non-trivial = tree has a nested folder and a file AND (a resume/skip action | "
-                "pre-seeded files | an earlier cut upload); distinct = hash(direction, tree, script/seed, cut); uploaded items are streamed with two forks or with a resource fork as third (0, 1 or 699 bytes), with PreserveResourceForks on or off: the items that follow must arrive either way (the download round trip is made when the server stored no forks); a fifth of the item names hold a byte beyond ASCII (what is uploaded comes back under the same bytes)",
+                "pre-seeded files | an earlier cut upload); distinct = hash(direction, tree, script/seed, cut); uploaded items are streamed with two forks or with a resource fork as third (0, 1 or 699 bytes), with PreserveResourceForks on or off: the items that follow must arrive either way (the download round trip is made when the server stored no forks); a fifth of the item names hold a byte beyond ASCII (what is uploaded comes back under the same bytes); in one case of forty the tree also has a folder of 254-300 tiny files (more items than fit one byte of the 16-bit item count)",
         "assumptions": ["PreserveResourceForks off, plain files without stored forks (the property's quantifier); stored-fork behaviour is only an observation in DESIGN.md"],
         "quick": {"runs": [{"test": "^TestC10Download$", "shards": 8, "checks": 250, "timeout": 600},
                            {"test": "^TestC10Upload$", "shards": 8, "checks": 250, "timeout": 600}]},
